@@ -141,7 +141,9 @@ def fam_linsolve(d, seed):
     else:
         A_in = A
         pattern = None
-    b = rhs(d.get('rhs', 'vec'), n, seed, d.get('rhs_complex', False))
+    b = rhs(d.get('rhs', 'vec'), n, seed, d.get('rhs_complex', False) is True)
+    if d.get('rhs_complex') == 'dtype_only':
+        b = b.astype(complex)       # a complex-typed load that (currently) holds real values only
     kw = {}
     if d.get('flags') == 'given':
         herm = bool(np.allclose(A, A.conj().T))
@@ -349,6 +351,11 @@ def lattice(tier, seed):
                             continue
                         yield dict(fam='LinSolve', cls=cls, n=3, storage=storage, rhs=shape, rhs_complex=rc,
                                    flags=flags)
+        if cplxA:
+            for storage in ('dense', 'csc'):
+                for shape in ('vec', 'blk'):
+                    yield dict(fam='LinSolve', cls=cls, n=3, storage=storage, rhs=shape, rhs_complex='dtype_only',
+                               flags='none')
         for solver in ('lu', 'qr'):
             yield dict(fam='LinSolve', cls=cls, n=3, storage='dense', rhs='vec', rhs_complex=False, solver=solver)
         yield dict(fam='LinSolve', cls=cls, n=3, storage='csc', rhs='blk', rhs_complex=cplxA, solver='splu')
